@@ -161,11 +161,23 @@ theorem C13_error_argument_count (rnd : Nat → Nat) (fuel k : Nat) (ops : RawOp
       SubScope sub ops ∧ declareMacros sub.toList [] = .ok ms ∧ lookupMacro ms n = some (.instr ps body) :=
   macroArgumentCount_provenance_instr rnd fuel k ops n h
 
+/-- the evaluator's fuel marker starts with a NUL character: no macro name the assembler's grammar can produce (letters,
+digits and `_`) equals it — in particular not a user macro called `fuel` -/
+theorem C13_fuel_mark_not_identifier : evalFuelMark.front = Char.ofNat 0 := by decide
+
+/-- in particular the marker is not the identifier `fuel`, and not made of identifier characters -/
+theorem C13_fuel_mark_ne_fuel : evalFuelMark ≠ "fuel" := by decide
+
+theorem evalFuelMark_not_name : ¬ ∀ c ∈ evalFuelMark.toList, (c.isAlphanum || c == '_') = true := by decide
+
 /-- `MacroRecursionLimit n`: `n` is a macro declared in the scope that reports it — or the marker of the evaluator
-model's own fuel (operands nested deeper than `evalFuel` = 100000 levels; DESIGN §11) -/
+model's own fuel (operands nested deeper than `evalFuel` = 100000 levels; DESIGN §11).  The first disjunct is the
+marker `evalFuelMark` (`"\x00fuel"`), NOT the plain string `fuel`: no macro name can equal it because it starts with a
+NUL character (`C13_fuel_mark_not_identifier`), so for a program whose user macro is called `fuel` the theorem still
+says that the reported name is a declared macro. -/
 theorem C13_error_recursion_limit (rnd : Nat → Nat) (fuel k : Nat) (ops : RawOps) (n : String)
     (h : assemble rnd fuel { fresh := k } ops = .error (.macroRecursionLimit n)) :
-    n = "fuel" ∨
+    n = evalFuelMark ∨
     ∃ (sub : RawOps) (ms : List (String × MacroDef)) (d : MacroDef),
       SubScope sub ops ∧ declareMacros sub.toList [] = .ok ms ∧ lookupMacro ms n = some d :=
   macroRecursionLimit_provenance rnd fuel k ops n h
